@@ -189,6 +189,20 @@ func init() {
 				case 2:
 					// engine: split the rules over two lists
 					all := append(append([]string{}, rs...), src...)
+					if g.Chance(1, 2) {
+						// the same rules written with patterns of other shapes (a scheme prefix, a bare literal, a short literal, a
+						// regular expression): the engine files them in different lookup tables, the verdict follows the
+						// precedence all the same
+						for j, t := range all {
+							if strings.Contains(t, "||example.org^") && g.Chance(2, 3) {
+								shape := Pick(g, []string{"|http://", "://example.", `/^https?:\/\/example\./`, "/^http/", "example.org", "|http://example.org", "org", "||example.org^", "/exa.*org/"})
+								t2 := strings.Replace(t, "||example.org^", shape, 1)
+								if _, err := rules.NewNetworkRule(t2, 1); err == nil {
+									all[j] = t2
+								}
+							}
+						}
+					}
 					Shuffle(g, all)
 					k := g.Intn(len(all) + 1)
 					emit("engine\t" + encList(all[:k]) + "\t" + encList(all[k:]))
